@@ -75,6 +75,7 @@ class AddNodes(Contract):
     """add_nodes(parent, i, j, is_left) builds the subtree for bins[i:j] below `parent`"""
     variants = [True, False]
     free = ["bins", "tree", "values", "n_nodes", "UNUSED", "add_nodes"]
+    pyx_source = ("mlinsights/mltree/_tree_digitize.pyx",)      # the Cython wrapper tree_add_node is executed from its extracted text
 
     def setup(self, E, is_left):
         from pyvc.values import NaN
@@ -170,6 +171,7 @@ class AddNodes(Contract):
 class Digitize2Tree(Contract):
     variants = ["increasing", "decreasing", "right=False"]
     symbolic_lists = ["values"]
+    pyx_source = ("mlinsights/mltree/_tree_digitize.pyx",)
 
     def list_hook(self, E, name, lst):
         hook_values(E.ps["c12_spec"], lst)
@@ -380,7 +382,8 @@ class NodeRange(Contract):
 
 META = dict(
     level="proof", assumptions=["A1", "A2", "A6", "A7", "A9"],
-    trusted=["Tree._add_node / the Cython wrapper tree_add_node: returns the next node id; in the final tree a split node routes x <= threshold to the "
+    trusted=["Tree._add_node (scikit-learn; the Cython wrapper tree_add_node of this repository is executed from the text extracted from "
+             "_tree_digitize.pyx by pyvc/pyxstrip.py): returns the next node id; in the final tree a split node routes x <= threshold to the "
              "child attached on its left slot and x > threshold to the right one; a leaf predicts its value (ghost leafid, stated as axioms at node creation); "
              "each slot may be filled once (checked as an obligation at every call)",
              "DecisionTreeRegressor.predict(x) = tree_.value[leafid(0, x)]; TREE_LEAF = -1"],
